@@ -88,6 +88,8 @@ class RefAgent:
         #: conformant choice (RFC 3412 7.1 step 3): a Report's scoped PDU carries either this engine's id or the
         #: contextEngineID / contextName of the request it answers (empty for a discovery probe)
         self.report_ctx_echo = False
+        #: speed of the engine clock relative to the simulator's virtual time (clock drift; 0.5 and 0.75 are exact in binary)
+        self.rate = 1.0
 
     # -- MIB ----------------------------------------------------------------------
     def set_mib(self, mib: Dict[tuple, S.Value]) -> None:
@@ -95,7 +97,7 @@ class RefAgent:
         self.keys = sorted(self.mib)
 
     def engine_time(self, now: float) -> int:
-        return self.time0 + int(now - self.boot_instant)
+        return self.time0 + int((now - self.boot_instant) * self.rate)
 
     def reboot(self, now: float) -> None:
         self.boots += 1
